@@ -164,6 +164,46 @@ def observe_aux(d, shapes_factors):
     return recs
 
 
+def observe_bane(d, cases):
+    """BANE's own compressed outputs (filter_image(compressed=True)) expand to the image's shape and WCS."""
+    from astropy.io import fits
+    from AegeanTools import fits_tools, BANE
+    recs = []
+    for (R, C, g) in cases:
+        hdu, img = make_hdu(R, C, "cdelt", True, R * 7 + C)
+        rng = np.random.default_rng(R * 100 + C)
+        hdu.data = (img + rng.normal(0, 1, img.shape)).astype(np.float32)
+        p = os.path.join(d, "bane_%d_%d_%d.fits" % (R, C, g))
+        hdu.writeto(p, overwrite=True)
+        orig = {k: hdu.header[k] for k in WCSKEYS["cdelt"]}
+        base = p.replace(".fits", "_out")
+        err = ""
+        try:
+            BANE.filter_image(p, base, step_size=(g, g), box_size=(2 * g, 2 * g), cores=1, compressed=True)
+        except Exception as e:
+            err = "%s: %s" % (type(e).__name__, e)
+        for which in ("bkg", "rms"):
+            rec = {"id": "baneout/R=%d/C=%d/g=%d/%s" % (R, C, g, which), "kind": "baneout", "R": R, "C": C, "f": g,
+                   "which": which, "err": err, "shape": [], "wcsdev": [], "bnleft": False}
+            f = "%s_%s.fits" % (base, which)
+            if not err:
+                try:
+                    exp = fits_tools.expand(f)
+                    h = exp[0].header
+                    rec["shape"] = [int(x) for x in exp[0].data.shape]
+                    for k in WCSKEYS["cdelt"]:
+                        rec["wcsdev"].append(10 ** 6 if k not in h else
+                                             min(10 ** 6, int(round(abs(h[k] - orig[k]) / abs(orig[k]) * 1e12))))
+                    rec["bnleft"] = any(k.startswith("BN_") for k in h.keys())
+                except Exception as e:
+                    rec["err"] = "%s: %s" % (type(e).__name__, e)
+            if os.path.exists(f):
+                os.remove(f)
+            recs.append(rec)
+        os.remove(p)
+    return recs
+
+
 def key_of(rec, fails):
     if rec["kind"] == "roundtrip":
         return "roundtrip R=%d C=%d f=%d hdr=%s input=%s fails=%s" % (
@@ -245,6 +285,8 @@ def run(ctx):
     recs += observe_identity(d)
     recs += observe_aux(d, [(8, 8, 2), (9, 7, 4), (33, 20, 5), (16, 16, 16)] if quick else
                         [(R, C, f) for R in (8, 9, 33) for C in (7, 16, 20) for f in (1, 2, 3, 4, 5, 8, 16)])
+    recs += observe_bane(d, [(24, 20, 4), (33, 27, 4), (40, 40, 8)] if quick else
+                         [(R, C, g) for R in (24, 33, 40) for C in (20, 27, 48) for g in (2, 4, 8)])
     rejected = []
     for i, part in enumerate(common.chunks(recs, 1500)):
         rejected += validate(ctx, part, "expand_trace_%d" % i)
@@ -273,6 +315,8 @@ def replay(ctx, rec):
         recs = [observe((r["R"], r["C"], r["f"], r["hdr"], r["input"], r["affine"], r["seed"]))]
     elif r["kind"] == "identity":
         recs = [x for x in observe_identity(d) if x["id"] == r["id"]]
+    elif r["kind"] == "baneout":
+        recs = [x for x in observe_bane(d, [(r["R"], r["C"], r["f"])]) if x["id"] == r["id"]]
     else:
         R, C = r["imshape"]
         recs = observe_aux(d, [(R, C, int(r["id"].split("f=")[1]))])
